@@ -8,6 +8,13 @@
 //!    way the page tree allows (own /Resources or inherited from either ancestor level, outer levels empty / binding the
 //!    same resource name to another encoding / binding another name; direct and indirect dictionaries), extracted from
 //!    the document as built and after save + reload. The oracle is ISO 32000-1 7.7.3.4 (the nearest /Resources wins).
+//!  * extraction of SEVERAL PAGES WITH ONE CALL (extract_text takes a list of page numbers; the property speaks of the
+//!    text of a document, not of a one-page document): documents of 2..4 pages, every assignment of the predefined tables
+//!    to the pages, the pages' fonts bound under the same resource name in separate resource dictionaries, under distinct
+//!    names, in one shared dictionary, at the page / its own intermediate node / the root; every sequence of page numbers
+//!    (any subset, any order, repetitions) is extracted with one call. Resource names are local to a resource dictionary
+//!    (ISO 32000-1 7.8.3), so the text of a call is the text of its pages, one after the other, whatever was extracted
+//!    earlier in the same call.
 #![allow(dead_code)]
 use crate::common::*;
 use lopdf::content::{Content, Operation};
@@ -490,15 +497,348 @@ fn extract_family(thorough: bool) -> Vec<ExSpec> {
     specs
 }
 
+// ------------------------------------------------------------------------------------------------ several pages, one call
+/// where the resource dictionary of a page sits: at the page, at an intermediate /Pages node of its own, or nowhere
+/// nearer than the root of the page tree (the page inherits the root's /Resources)
+#[derive(Clone, Copy, Debug, PartialEq)]
+enum Holder { Page, Parent, Root }
+
+impl Holder {
+    fn name(self) -> &'static str { match self { Holder::Page => "page", Holder::Parent => "parent", Holder::Root => "root" } }
+    fn parse(s: &str) -> Option<Holder> { match s { "page" => Some(Holder::Page), "parent" => Some(Holder::Parent), "root" => Some(Holder::Root), _ => None } }
+}
+
+#[derive(Clone, Debug)]
+struct MpPage { holder: Holder, dict: Option<usize>, segs: Vec<(String, String)> }
+
+/// dicts: the resource dictionaries of the document (a dictionary that is an indirect object and is named by several
+/// holders is ONE shared object); root: the one the root /Pages node carries; pages in page-number order.
+#[derive(Clone, Debug)]
+struct MpSpec { layout: String, dicts: Vec<Level>, root: Option<usize>, pages: Vec<MpPage> }
+
+impl MpSpec {
+    fn to_json(&self, call: &[u32]) -> Value {
+        let dicts: Vec<Value> = self.dicts.iter().map(|l| json!({"fonts": l.fonts.iter().map(|(n, t)| json!([n, TABLE_NAMES[*t]])).collect::<Vec<_>>(),
+            "resources_indirect": l.res_ind, "fontdict_indirect": l.fd_ind, "font_indirect": l.font_ind})).collect();
+        let pages: Vec<Value> = self.pages.iter().map(|p| json!({"holder": p.holder.name(), "dict": p.dict, "segments": p.segs.iter().map(|(n, t)| json!([n, t])).collect::<Vec<_>>()})).collect();
+        json!({"kind": "pages", "layout": self.layout, "dicts": dicts, "root": self.root, "pages": pages, "call": call})
+    }
+    fn from_json(v: &Value) -> Option<(MpSpec, Vec<u32>)> {
+        let mut dicts = vec![];
+        for l in v["dicts"].as_array()? {
+            let mut fonts = vec![];
+            for f in l["fonts"].as_array()? { fonts.push((f[0].as_str()?.to_string(), TABLE_NAMES.iter().position(|t| Some(*t) == f[1].as_str())?)); }
+            dicts.push(Level { fonts, res_ind: l["resources_indirect"].as_bool()?, fd_ind: l["fontdict_indirect"].as_bool()?, font_ind: l["font_indirect"].as_bool()? });
+        }
+        let mut pages = vec![];
+        for p in v["pages"].as_array()? {
+            let mut segs = vec![];
+            for s in p["segments"].as_array()? { segs.push((s[0].as_str()?.to_string(), s[1].as_str()?.to_string())); }
+            pages.push(MpPage { holder: Holder::parse(p["holder"].as_str()?)?, dict: p["dict"].as_u64().map(|x| x as usize), segs });
+        }
+        let call: Vec<u32> = v["call"].as_array()?.iter().filter_map(|x| x.as_u64().map(|x| x as u32)).collect();
+        Some((MpSpec { layout: v["layout"].as_str().unwrap_or("replayed").to_string(), dicts, root: v["root"].as_u64().map(|x| x as usize), pages }, call))
+    }
+    /// ISO 32000-1 7.7.3.4 again: the page's own or its nearest ancestor's /Resources
+    fn effective(&self, i: usize) -> Option<&Level> {
+        let p = self.pages.get(i)?;
+        match p.holder { Holder::Page | Holder::Parent => self.dicts.get(p.dict?), Holder::Root => self.dicts.get(self.root?) }
+    }
+    fn summary(&self) -> String {
+        let d = |l: &Level| format!("{}{{{}}}", if l.res_ind { "indirect " } else { "" }, l.fonts.iter().map(|(n, t)| format!("/{} -> {}", n, TABLE_NAMES[*t])).collect::<Vec<_>>().join(", "));
+        let mut parts: Vec<String> = vec![];
+        if let Some(l) = self.root.and_then(|r| self.dicts.get(r)) { parts.push(format!("root /Pages: /Resources #{} {}", self.root.unwrap_or(0), d(l))); }
+        for (i, p) in self.pages.iter().enumerate() {
+            parts.push(match (p.holder, p.dict.and_then(|k| self.dicts.get(k))) {
+                (Holder::Root, _) => format!("page {}: inherits the root's", i + 1),
+                (h, Some(l)) => format!("page {}: /Resources #{} {} at {}", i + 1, p.dict.unwrap_or(0), d(l), if h == Holder::Page { "the page" } else { "its own intermediate /Pages node" }),
+                (_, None) => format!("page {}: no /Resources", i + 1),
+            });
+        }
+        parts.join("; ")
+    }
+}
+
+/// the codes that show `text` with table t (first code of each character)
+fn codes_for(t: usize, text: &str) -> Result<Vec<u8>, String> {
+    let rep = repertoire(t);
+    text.chars().map(|c| rep.iter().find(|(_, d)| *d == c).map(|x| x.0).ok_or(format!("{} is not in the repertoire of {}", cp(c), TABLE_NAMES[t]))).collect()
+}
+
+/// the document of a description and the text each page shows
+fn build_pages(spec: &MpSpec) -> Result<(Document, Vec<String>), String> {
+    if spec.pages.is_empty() { return Err("no pages".into()); }
+    let mut doc = Document::with_version("1.5");
+    let root_id = doc.new_object_id();
+    let dict_objs: Vec<Object> = spec.dicts.iter().map(|l| resources_object(&mut doc, l)).collect();
+    let mut kids: Vec<Object> = vec![];
+    let mut texts = vec![];
+    for (i, p) in spec.pages.iter().enumerate() {
+        let eff = spec.effective(i).ok_or(format!("page {} has no /Resources in effect", i + 1))?;
+        let mut ops = vec![Operation::new("BT", vec![])];
+        let mut want = String::new();
+        for (k, (name, text)) in p.segs.iter().enumerate() {
+            let t = eff.fonts.iter().find(|(n, _)| n == name).ok_or(format!("/{} is not defined by the resource dictionary in effect for page {}", name, i + 1))?.1;
+            let bytes = codes_for(t, text)?;
+            ops.push(Operation::new("Tf", vec![Object::Name(name.as_bytes().to_vec()), 12.into()]));
+            if k == 0 { ops.push(Operation::new("Td", vec![50.into(), 700.into()])); }
+            ops.push(Operation::new("Tj", vec![Object::string_literal(bytes)]));
+            want.push_str(text);
+        }
+        if want.is_empty() { return Err(format!("page {} shows no text", i + 1)); }
+        ops.push(Operation::new("ET", vec![]));
+        let content_id = doc.add_object(Stream::new(dictionary! {}, Content { operations: ops }.encode().map_err(|e| e.to_string())?));
+        let mut page = dictionary! { "Type" => "Page", "Contents" => content_id };
+        match p.holder {
+            Holder::Parent => {
+                let mid = doc.new_object_id();
+                page.set("Parent", mid);
+                let page_id = doc.add_object(page);
+                let mut d = dictionary! { "Type" => "Pages", "Parent" => root_id, "Kids" => vec![Object::Reference(page_id)], "Count" => 1 };
+                d.set("Resources", dict_objs[p.dict.ok_or("no dictionary")?].clone());
+                doc.objects.insert(mid, Object::Dictionary(d));
+                kids.push(Object::Reference(mid));
+            }
+            h => {
+                page.set("Parent", root_id);
+                if h == Holder::Page { page.set("Resources", dict_objs[p.dict.ok_or("no dictionary")?].clone()); }
+                kids.push(Object::Reference(doc.add_object(page)));
+            }
+        }
+        texts.push(want);
+    }
+    let mut root = dictionary! { "Type" => "Pages", "Count" => spec.pages.len() as i64, "Kids" => kids, "MediaBox" => vec![0.into(), 0.into(), 595.into(), 842.into()] };
+    if let Some(r) = spec.root { root.set("Resources", dict_objs.get(r).ok_or("no such dictionary")?.clone()); }
+    doc.objects.insert(root_id, Object::Dictionary(root));
+    let catalog = doc.add_object(dictionary! { "Type" => "Catalog", "Pages" => root_id });
+    doc.trailer.set("Root", catalog);
+    Ok((doc, texts))
+}
+
+/// the text of a call is the text of its pages in the order of the call; as for one page, the line feed with which
+/// extraction ends a text object may follow each of them
+fn same_pages(texts: &[&str], got: &str) -> bool {
+    match texts.split_first() {
+        None => got.is_empty(),
+        Some((first, rest)) => match got.strip_prefix(*first) {
+            None => false,
+            Some(g) => same_pages(rest, g) || g.strip_prefix('\n').map_or(false, |g2| same_pages(rest, g2)),
+        },
+    }
+}
+
+/// which page of the call comes back changed, and whether the same resource name on another page of the call explains it
+fn explain_pages(spec: &MpSpec, call: &[u32], texts: &[String], got: &str) -> String {
+    let show = |s: &str| -> String { let v: String = s.chars().take(32).collect(); if v.len() < s.len() { format!("{:?}...", v) } else { format!("{:?}", v) } };
+    let mut pos = 0usize;
+    for (k, &pn) in call.iter().enumerate() {
+        let i = pn as usize - 1;
+        let want = &texts[i];
+        let rest = &got[pos..];
+        if rest.starts_with(want.as_str()) {
+            pos += want.len();
+            if !want.ends_with('\n') && got[pos..].starts_with('\n') { pos += 1; }
+            continue;
+        }
+        let n = want.chars().count();
+        let part: String = rest.chars().take(n).collect();
+        let mut out = format!("page {} (position {} of the call) shows {} and comes back as {}: {}", pn, k + 1, show(want), show(&part), first_diff(want, &part));
+        let eff = match spec.effective(i) { Some(e) => e, None => return out };
+        let g: Vec<char> = part.chars().collect();
+        let mut at = 0usize;
+        for (name, text) in &spec.pages[i].segs {
+            let t = match eff.fonts.iter().find(|(m, _)| m == name) { Some(f) => f.1, None => return out };
+            for c in text.chars() {
+                if g.get(at) != Some(&c) {
+                    let code = repertoire(t).iter().find(|(_, d)| *d == c).map(|x| x.0).unwrap_or(0);
+                    out.push_str(&format!(" (shown with /{} -> {}, code {:#04x})", name, TABLE_NAMES[t], code));
+                    // earlier pages of the call first
+                    let order: Vec<(usize, u32)> = call.iter().copied().enumerate().filter(|(j, q)| *j != k && *q != pn).collect();
+                    for (j, q) in order {
+                        if let Some(other) = spec.effective(q as usize - 1) {
+                            if let Some((_, u)) = other.fonts.iter().find(|(m, u)| m == name && *u != t) {
+                                if g.get(at).is_some() && tables()[*u][code as usize] == g.get(at).copied() {
+                                    out.push_str(&format!("; the character returned is what {} gives for that code: /{} was taken to be the /{} of page {}, extracted {} in the same call, although resource names are local to a page's resource dictionary", TABLE_NAMES[*u], name, name, q, if j < k { "earlier" } else { "later" }));
+                                    return out;
+                                }
+                            }
+                        }
+                    }
+                    return out;
+                }
+                at += 1;
+            }
+        }
+        return out;
+    }
+    format!("all pages of the call come back, followed by unexpected text {}", show(&got[pos..]))
+}
+
+/// Extract every sequence of `calls` with one call each, from the document as built and after save_to + load_mem;
+/// the first call whose text is not the text of its pages: (index into calls, obligation, detail).
+fn check_pages(spec: &MpSpec, calls: &[Vec<u32>]) -> Result<(), (usize, String, String)> {
+    let (mut doc, texts) = match build_pages(spec) { Ok(x) => x, Err(_) => return Ok(()) };
+    let class = format!("({}; several pages, one call)", spec.layout);
+    let run = |d: &Document, when: &str, obl: &str| -> Result<(), (usize, String, String)> {
+        for (ci, call) in calls.iter().enumerate() {
+            if call.is_empty() || call.iter().any(|p| *p == 0 || *p as usize > texts.len()) { continue; }
+            let want: Vec<&str> = call.iter().map(|p| texts[*p as usize - 1].as_str()).collect();
+            match guarded(std::panic::AssertUnwindSafe(|| d.extract_text(call))) {
+                Err(p) => return Err((ci, "extract-no-panic".into(), format!("{} extract_text(&{:?}) {} panicked: {} [{}]", class, call, when, p, spec.summary()))),
+                Ok(Err(e)) => return Err((ci, obl.into(), format!("{} extract_text(&{:?}) {} fails: {} [{}]", class, call, when, e, spec.summary()))),
+                Ok(Ok(got)) => if !same_pages(&want, &got) {
+                    return Err((ci, obl.into(), format!("{} extract_text(&{:?}) {} does not return the text of those pages: {} [{}]", class, call, when, explain_pages(spec, call, &texts, &got), spec.summary())));
+                }
+            }
+        }
+        Ok(())
+    };
+    run(&doc, "on the document as built", "extract-pages-unchanged")?;
+    let mut saved = vec![];
+    match guarded(std::panic::AssertUnwindSafe(|| doc.save_to(&mut saved))) {
+        Err(p) => return Err((0, "extract-no-panic".into(), format!("{} save_to panicked: {} [{}]", class, p, spec.summary()))),
+        Ok(Err(e)) => return Err((0, "extract-save-reload".into(), format!("{} the document cannot be saved: {} [{}]", class, e, spec.summary()))),
+        Ok(Ok(())) => {}
+    }
+    let re = match guarded(|| Document::load_mem(&saved)) {
+        Err(p) => return Err((0, "extract-no-panic".into(), format!("{} load_mem panicked on the saved document: {} [{}]", class, p, spec.summary()))),
+        Ok(Err(e)) => return Err((0, "extract-save-reload".into(), format!("{} the saved document cannot be loaded: {} [{}]", class, e, spec.summary()))),
+        Ok(Ok(d)) => d,
+    };
+    run(&re, "after save and reload", "extract-pages-unchanged-after-reload")
+}
+
+/// every sequence of 1..=min(p, 3) page numbers out of 1..=p (any subset, any order, repetitions), and for p > 3 every
+/// arrangement of all p pages
+fn call_family(p: usize) -> Vec<Vec<u32>> {
+    let mut out: Vec<Vec<u32>> = vec![];
+    let mut frontier: Vec<Vec<u32>> = vec![vec![]];
+    for _ in 0..p.min(3) {
+        let mut next = vec![];
+        for s in &frontier { for q in 1..=p as u32 { let mut t = s.clone(); t.push(q); next.push(t); } }
+        out.extend(next.iter().cloned());
+        frontier = next;
+    }
+    if p > 3 {
+        fn perms(rest: &mut Vec<u32>, cur: &mut Vec<u32>, out: &mut Vec<Vec<u32>>) {
+            if rest.is_empty() { out.push(cur.clone()); return; }
+            for i in 0..rest.len() { let x = rest.remove(i); cur.push(x); perms(rest, cur, out); cur.pop(); rest.insert(i, x); }
+        }
+        perms(&mut (1..=p as u32).collect(), &mut vec![], &mut out);
+    }
+    out
+}
+
+const LAYOUTS: [&str; 8] = [
+    "same name /F1, own /Resources at each page",
+    "a different name per page, own /Resources at each page",
+    "two names /F1 /F2 bound crosswise, own /Resources at each page",
+    "same name /F1, own /Resources at an intermediate node of each page",
+    "same name /F1, first page inherits the root's /Resources, the others have their own",
+    "a name per page, one /Resources at the root inherited by all pages",
+    "a name per page, one indirect /Resources shared by all pages",
+    "same name /F1, own /Resources alternately at the page and at an intermediate node",
+];
+
+/// a text over the repertoire of table t that tells t from each of `others`: a pseudo-random string, then for every other
+/// table one character whose code that table reads differently (or not at all)
+fn telling_text(t: usize, seed: u64, others: &[usize]) -> String {
+    let mut s = random_text(t, seed);
+    let mut seen: Vec<usize> = vec![];
+    for &u in others {
+        if u == t || seen.contains(&u) { continue; }
+        seen.push(u);
+        if let Some((_, c)) = repertoire(t).iter().find(|(b, c)| *b > 0x20 && tables()[u][*b as usize] != Some(*c)) { s.push(*c); }
+    }
+    s
+}
+
+/// Documents of p pages whose fonts use the tables t[0..p] (page i shows text with table t[i]), in each layout.
+fn pages_spec(layout: usize, t: &[usize], shape: (bool, bool, bool), serial: u64) -> MpSpec {
+    let p = t.len();
+    let lv = |fonts: Vec<(String, usize)>, res_ind: bool| Level { fonts, res_ind, fd_ind: shape.1, font_ind: shape.2 };
+    let f = |k: usize| format!("F{}", k);
+    let mut dicts: Vec<Level> = vec![];
+    let mut root = None;
+    // per page: holder, dictionary, (name, table) of the segments
+    let mut pages: Vec<(Holder, Option<usize>, Vec<(String, usize)>)> = vec![];
+    match layout {
+        0 | 3 | 7 => for i in 0..p {
+            dicts.push(lv(vec![(f(1), t[i])], shape.0));
+            let h = if layout == 0 || (layout == 7 && i % 2 == 0) { Holder::Page } else { Holder::Parent };
+            pages.push((h, Some(i), vec![(f(1), t[i])]));
+        },
+        1 => for i in 0..p {
+            dicts.push(lv(vec![(f(i + 1), t[i])], shape.0));
+            pages.push((Holder::Page, Some(i), vec![(f(i + 1), t[i])]));
+        },
+        2 => for i in 0..p {
+            let (a, b) = (t[i], t[(i + 1) % p]);
+            dicts.push(lv(vec![(f(1), a), (f(2), b)], shape.0));
+            pages.push((Holder::Page, Some(i), vec![(f(1), a), (f(2), b), (f(1), a)]));
+        },
+        4 => for i in 0..p {
+            dicts.push(lv(vec![(f(1), t[i])], shape.0));
+            if i == 0 { root = Some(0); pages.push((Holder::Root, None, vec![(f(1), t[i])])); } else { pages.push((Holder::Page, Some(i), vec![(f(1), t[i])])); }
+        },
+        _ => {
+            dicts.push(lv((0..p).map(|i| (f(i + 1), t[i])).collect(), layout == 6 || shape.0));
+            if layout == 5 { root = Some(0); }
+            for i in 0..p { pages.push((if layout == 5 { Holder::Root } else { Holder::Page }, if layout == 5 { None } else { Some(0) }, vec![(f(i + 1), t[i])])); }
+        }
+    }
+    let mut k = 0u64;
+    let pages = pages.into_iter().enumerate().map(|(i, (holder, dict, segs))| {
+        let segs = segs.into_iter().enumerate().map(|(j, (name, tab))| {
+            k += 1;
+            // the whole repertoire on one page of every eighth document, telling pseudo-random texts otherwise
+            let text = if j == 0 && serial % 8 == 0 && i as u64 == (serial / 8) % p as u64 { full_text(tab) } else { telling_text(tab, serial.wrapping_mul(64).wrapping_add(k), t) };
+            (name, text)
+        }).collect();
+        MpPage { holder, dict, segs }
+    }).collect();
+    MpSpec { layout: LAYOUTS[layout].to_string(), dicts, root, pages }
+}
+
+/// Every assignment of the 5 tables to the pages of a document of 2..=pmax pages x every layout x the direct/indirect
+/// shapes; documents of the largest page count of the thorough tier take the two extreme shapes only.
+fn pages_family(thorough: bool) -> Vec<MpSpec> {
+    let nt = TABLE_NAMES.len();
+    let pmax = if thorough { 4 } else { 3 };
+    let mut specs = vec![];
+    let mut serial = 0u64;
+    for p in 2..=pmax {
+        let shapes: Vec<(bool, bool, bool)> = if thorough && p < 4 {
+            let mut v = vec![];
+            for a in [true, false] { for b in [false, true] { for c in [true, false] { v.push((a, b, c)); } } }
+            v
+        } else { vec![(true, false, true), (false, true, false)] };
+        for code in 0..nt.pow(p as u32) {
+            let mut c = code;
+            let t: Vec<usize> = (0..p).map(|_| { let x = c % nt; c /= nt; x }).collect();
+            for layout in 0..LAYOUTS.len() {
+                for sh in &shapes { serial += 1; specs.push(pages_spec(layout, &t, *sh, serial)); }
+            }
+        }
+    }
+    specs
+}
+
 pub fn strings(thorough: bool) -> Report {
     let mut rep = Report::new(&format!("(a) every string of length <= 4 (quick: <= 3) over a 14-character class alphabet {{a, space, LF, NUL, DEL, 0x18, e-acute, U+00FF, U+FEFF, U+FFFE, U+0100, euro, U+D7FF, U+1F600}}; plus lone BOMs and odd-length UTF-16; \
 (b) long text strings, each through text_string/decode_text_string and as UTF-8 with BOM: filler^p + wide + 'z' for EVERY p in 0..={} and (filler, wide) in {{(x, U+1F600), (e-acute, U+1F600), (euro, U+1F600), (x, euro), (e-acute, euro)}} (a two-code-unit / multi-byte character at every offset), \
 U+1F600^n and 'x' + U+1F600^n for n = 2^k + d, k in 5..={}, d in -2..=2 (surrogate pairs at even and at odd offsets), {} pseudo-random strings over the class alphabet for each of those lengths; \
 (c) text extraction from one-page documents, as built and after save_to + load_mem: page tree of depth 1 and 2; the /Resources in effect (ISO 32000-1 7.7.3.4) at the page or at either ancestor, binding /F1 to each of the 5 tables and optionally /F2 to {}; \
 every level further out without /Resources or binding /F1, /F2 or both to each of the 5 tables (not in effect); {} direct/indirect shapes of /Resources, /Font and the font dictionaries; \
-text = the whole repertoire of the table or a pseudo-random string over it (1..24 characters, half from codes >= 0x80), shown with /F1, /F2, /F1 in turn",
-        if thorough { 16_500 } else { 8_200 }, if thorough { 16 } else { 13 }, if thorough { 12 } else { 4 }, if thorough { "each table" } else { "2 other tables" }, if thorough { 16 } else { 4 }), true);
-    rep.obligations = 8;
+text = the whole repertoire of the table or a pseudo-random string over it (1..24 characters, half from codes >= 0x80), shown with /F1, /F2, /F1 in turn; \
+(d) several pages extracted with ONE call of extract_text, as built and after save_to + load_mem: documents of 2..={} pages x every assignment of the 5 tables to the pages (5^p) x 8 layouts of the fonts \
+(own /Resources per page binding the same name /F1 on every page; a different name per page; /F1 and /F2 bound crosswise and shown in turn; own /Resources at an intermediate /Pages node per page; first page inheriting the root's while the others have their own; \
+one root dictionary inherited by all pages; one indirect dictionary shared by all pages; holders alternating page / intermediate node) x {} direct/indirect shapes{}; \
+calls = EVERY sequence of 1..=3 page numbers out of 1..=p (every subset, order and repetition; single pages included){}; each page shows a pseudo-random text over its table's repertoire followed by one character per other table of the document \
+whose code that table reads differently (every eighth document: the whole repertoire on one page); oracle: the text of a call is the text of its pages in call order (resource names are local to a resource dictionary, ISO 32000-1 7.8.3)",
+        if thorough { 16_500 } else { 8_200 }, if thorough { 16 } else { 13 }, if thorough { 12 } else { 4 }, if thorough { "each table" } else { "2 other tables" }, if thorough { 16 } else { 4 },
+        if thorough { 4 } else { 3 }, if thorough { 8 } else { 2 }, if thorough { " (2 shapes for 4 pages)" } else { "" }, if thorough { " and, for 4 pages, every arrangement of all 4" } else { "" }), true);
+    rep.obligations = 10;
     // 2. strings over a class alphabet
     let alpha: Vec<char> = CLASS_ALPHABET.to_vec();
     let maxlen = if thorough { 4 } else { 3 };
@@ -542,6 +882,18 @@ text = the whole repertoire of the table or a pseudo-random string over it (1..2
     for (i, o, d) in fails { rep.fail(&o, format!("[{} of the {} documents fail] {}", total, specs.len(), d), specs[i].to_json(), d.clone()); }
     if std::env::var("C16_TIMES").is_ok() { eprintln!("extraction: {:?}", t0.elapsed()); }
     if let Some(s) = specs.iter().find(|s| s.levels.len() == 3 && s.levels[0].is_some() && s.levels[1].is_some()) { rep.sample(s.summary()); }
+    // several pages with one call
+    let t0 = std::time::Instant::now();
+    let docs = pages_family(thorough);
+    let calls: Vec<Vec<Vec<u32>>> = (0..=4).map(call_family).collect();
+    let mut fails: Vec<(usize, usize, String, String)> = docs.par_iter().enumerate().filter_map(|(i, s)| check_pages(s, &calls[s.pages.len().min(4)]).err().map(|(ci, o, d)| (i, ci, o, d))).collect();
+    fails.sort();
+    let mut n_calls = 0usize;
+    for s in &docs { for _ in 0..calls[s.pages.len().min(4)].len() { rep.case(true); n_calls += 1; } }
+    let total = fails.len();
+    for (i, ci, o, d) in fails { rep.fail(&o, format!("[{} of the {} documents ({} calls) fail] {}", total, docs.len(), n_calls, d), docs[i].to_json(&calls[docs[i].pages.len().min(4)][ci]), d.clone()); }
+    if std::env::var("C16_TIMES").is_ok() { eprintln!("several pages: {:?} ({} documents, {} calls)", t0.elapsed(), docs.len(), n_calls); }
+    if let Some(s) = docs.iter().find(|s| s.pages.len() == 3 && s.root.is_some() && s.dicts.len() == 3 && s.dicts[0].fonts != s.dicts[1].fonts && s.dicts[1].fonts != s.dicts[2].fonts && s.dicts[0].fonts != s.dicts[2].fonts) { rep.sample(format!("one call over pages of: {}", s.summary())); }
     rep
 }
 
@@ -560,6 +912,11 @@ pub fn replay(v: &Value) -> Result<(), String> {
             let spec = ExSpec::from_json(v).ok_or("malformed extraction description")?;
             build_extract(&spec).map_err(|e| format!("description outside the family: {}", e))?;
             check_extract(&spec).map_err(|e| format!("{}: {}", e.0, e.1))
+        }
+        Some("pages") => {
+            let (spec, call) = MpSpec::from_json(v).ok_or("malformed description of a document of several pages")?;
+            build_pages(&spec).map_err(|e| format!("description outside the family: {}", e))?;
+            check_pages(&spec, &[call]).map_err(|e| format!("{}: {}", e.1, e.2))
         }
         Some("table") => {
             let rep = run(false);
